@@ -442,6 +442,8 @@ fn main() {
             }
             "dump-facts" => return dbx::dump_facts(),
             "dbopen" => return dbx::dbopen(&args[2..]),
+            "dbcount" => return dbx::dbcount(&args[2..]),
+            "dbstale" => return dbx::dbstale(&args[2..]),
             "topk" => return dbx::topk(&args[2..]),
             _ => {}
         }
